@@ -7,7 +7,8 @@ Model of `typhon/collocations/collocator.py :: Collocator.collocate` and its hel
 `_spatial_search_bin`, `_temporal_check`, `_get_intervals`, `_create_return`) after the
 `fix:` commits 8557ac8 (`.size` instead of `.any()`), 894c28f (`np.array_equal` cache
 test), cef9727 (untruncated |Δt| in the comparison), 3e8ea1e (window bounds keep ns) and
-the repairs "None when one side has no valid point" / "gridded result".  Core Lean only.
+0287e21 (None when one side has no valid point), d3a4109 (gridded result), 3262c37 (None for
+an empty dataset).  Core Lean only.
 
 Both criteria are given (`max_interval` and `max_distance`); times are integers (ns);
 `Pos` is an opaque position with decidable equality (= equality of the lat/lon doubles);
@@ -91,11 +92,12 @@ line is broadcast to its cells -/
 def flatten {Pos : Type} (d : List (Line Pos)) : List (Pt Pos) :=
   d.flatMap (fun l => l.cells.zipIdx.map (fun cj => ⟨l.time, cj.1.pos, cj.1.id, l.label, cj.2⟩))
 
-/-- `_prepare_data`: `error` = empty input dataset, `ok none` = nothing left in the window -/
+/-- `_prepare_data`: `ok none` = an empty input dataset (fix 3262c37) or nothing left in the
+window (the `Except` is kept for uniformity; this step no longer raises) -/
 def prepare {Pos : Type} (p s : List (Line Pos)) (mi : Int) (start stop : Option Int) :
     Except Err (Option (List (Pt Pos) × List (Pt Pos))) :=
   match commonWindow p s mi start stop with
-  | none => .error .valueError
+  | none => .ok none
   | some (lo, hi) =>
     let p' := selectLines p lo hi
     let s' := selectLines s lo hi
